@@ -78,10 +78,65 @@ def control_edit(doc, ver, which):
     return None
 
 
+def _lib_class(ver, clsname):
+    import stix2
+    mod = stix2.v20 if ver == "2.0" else stix2.v21
+    for m in (mod, getattr(mod, "observables", None), getattr(mod, "common", None), getattr(mod, "sdo", None)):
+        if m is not None and hasattr(m, clsname):
+            return getattr(m, clsname)
+    return None
+
+
+def prebuild(payload, edit, ver):
+    """Replace the dict that received the injected custom property by a library object built with allow_custom=True
+    (the documented way to hand embedded objects / extensions / members to a constructor).  Returns None if not applicable."""
+    from stix2 import registry
+    import copy
+    kind = edit["kind"]
+    path = edit["path"][:-1]
+    if not path:
+        return None
+    out = copy.deepcopy(payload)
+    parent = out
+    for comp in path[:-1]:
+        parent = parent[comp]
+    leaf = path[-1]
+    sub = parent[leaf]
+    if not isinstance(sub, dict):
+        return None
+    cls = None
+    if kind.startswith("custom-property:extension:"):
+        cls = registry.class_for_type(kind.split(":", 2)[2], ver, "extensions")
+    elif kind.startswith("custom-property:embedded:"):
+        cls = _lib_class(ver, kind.split(":", 2)[2])
+    elif kind == "custom-property:container-member":
+        cls = registry.class_for_type(sub.get("type"), ver, "observables")
+        sub = dict(sub, _valid_refs={"*": "*"}) if ver == "2.0" else sub
+    if cls is None:
+        return None
+    kw = {k: v for k, v in sub.items() if k != "type" or kind.startswith("custom-property:embedded")}
+    inst, exc = core.guarded(cls, allow_custom=True, **kw)
+    if exc is not None:
+        return None
+    parent[leaf] = inst
+    return out
+
+
 def call(entry, payload, ver, allow_custom):
     import stix2
     from stix2 import registry
     t = payload.get("type")
+    if entry == "bundle-prebuilt":
+        cls = registry.class_for_type(t, ver, "objects") or registry.class_for_type(t, ver, "observables")
+        kw = {k: v for k, v in payload.items() if k != "type"}
+        member, exc = core.guarded(cls, allow_custom=True, **kw)
+        if exc is not None:
+            return None, exc if allow_custom else None   # cannot even be built permissively: nothing to hand over
+        B = stix2.v20.Bundle if ver == "2.0" else stix2.v21.Bundle
+        res, exc = core.guarded(B, member, allow_custom=allow_custom)
+        if exc is None:
+            return res["objects"][0], None
+        return None, exc
     if entry == "parse":
         return core.guarded(stix2.parse, payload, allow_custom=allow_custom, version=ver)
     if entry == "parse-text":
@@ -124,7 +179,17 @@ def check_case(case):
     allow = case["allow_custom"]
     payload = C.apply(doc, edit) if edit else doc
     fails = []
-    res, exc = call(entry, payload, ver, allow)
+    if entry == "constructor-prebuilt":
+        pre = prebuild(payload, edit, ver) if edit else None
+        if pre is None:
+            return None
+        res, exc = call("constructor", pre, ver, allow)
+    elif entry == "bundle-prebuilt" and not allow and (edit is None or (edit["kind"].startswith("control:"))):
+        res, exc = call(entry, payload, ver, allow)
+    else:
+        res, exc = call(entry, payload, ver, allow)
+    if entry == "bundle-prebuilt" and not allow and exc is None and res is None:
+        return None
     kind = edit["kind"] if edit else "control:none"
     is_control = kind.startswith("control:")
     site = kind.split(":")[0] + (":" + kind.split(":")[1] if kind.count(":") and not is_control else "")
@@ -168,7 +233,9 @@ OPTS = {"ts_max_digits": 6, "selectors": "safe", "max_optional": 8, "plain_strin
 def entries_for(doc, ver):
     m = M.get(ver)
     t = doc["type"]
-    e = ["parse", "parse-text", "constructor", "bundle-dict", "memory-store"]
+    e = ["parse", "parse-text", "constructor", "bundle-dict", "memory-store", "constructor-prebuilt"]
+    if t not in m.observables:
+        e.append("bundle-prebuilt")
     if t in m.observables and ver == "2.1":
         e.append("parse_observable")
     if t not in m.observables:
@@ -206,6 +273,8 @@ def run(ctx):
                     k += 1
                     case = {"ver": ver, "doc": doc, "edit": edit, "entry": entry, "allow_custom": allow}
                     fails = check_case(case)
+                    if fails is None:
+                        continue
                     kind = edit["kind"] if edit else "control:none"
                     fp = core.fingerprint([ver, doc["type"], kind, entry, allow])
                     deep = kind.startswith("control:") or (edit is not None and len(edit["path"]) > 1)
@@ -225,4 +294,4 @@ def run(ctx):
 
 
 def replay(case):
-    return check_case(case)
+    return check_case(case) or []
